@@ -35,7 +35,7 @@ fn pool() -> Vec<(&'static str, Value)> {
     for x in [
         f64::NEG_INFINITY, -1.8446744073709552e19, -9.223372036854775808e18, -2147483648.0, -1.5, -1.0, -0.0, 0.0, f64::MIN_POSITIVE,
         1.5e-16, 3.0e-16, 0.5, 1.0, 1.0 + f64::EPSILON, 1.5, 2.0, 2147483647.0, 4294967295.0, 9007199254740993.0, 9.223372036854775807e18,
-        1.8446744073709552e19, 3.0e40, f64::MAX, f64::INFINITY, f64::NAN,
+        1.8446744073709552e19, 3.0e40, f64::MAX, f64::INFINITY, f64::NAN, -f64::NAN,
     ] {
         p.push(("f64", Value::Float64Value(x)));
     }
@@ -57,7 +57,7 @@ fn pool() -> Vec<(&'static str, Value)> {
     ] {
         p.push(("biguint", Value::BigUint(b.to_biguint().expect("non-negative"))));
     }
-    for s in ["", "0", "1", "a", "A", "ab", "b", "true", "\u{e9}"] {
+    for s in ["", "0", "1", "a", "A", "ab", "b", "true", "\u{e9}", "\0", "a\0"] {
         p.push(("text", Value::text(s)));
     }
     for d in [vec![], vec![0u8], vec![0, 0], vec![1], vec![255], vec![b'a']] {
